@@ -28,6 +28,7 @@ package c02
 import (
 	"errors"
 	"fmt"
+	"os"
 	"sort"
 	"strconv"
 	"strings"
@@ -2132,6 +2133,7 @@ func Run(c *lib.Ctx) {
 		"each Tracer method is atomic (runs under Tracer.mu); the schedule interleaves whole forward iterations' Link/Write calls with backward Receive calls only at the points the harness controls (action blocked / sink holding); finer interleavings are covered by the theorem, not by the runs",
 		"no single schedule step delivers packets to two different in-ports of one many-to-one node (their grouping order would be a real race between two forward goroutines); the generator excludes such topologies",
 		"the forward goroutines of the in-ports of one many-to-one node run concurrently: after a step that delivers a packet to such an in-port without any observable effect (no group completed, its echo held behind an older request) the harness waits until the node's tracer has stopped changing before the next step, so that a delivery to another in-port cannot overtake it inside the node (both orders are valid runs; oracle and model fix arrival order)",
+		"the step-serialised cases (everything compared with the model) execute ONE schedule step at a time and wait for its effects: two calls into one link never overlap there, and the Flow model is about exactly these schedules. True parallelism – the answer to request k entering Reader.Receive while request k+1 is inside Writer.Write on the same link – is exercised by the FREE-RUNNING part only (free.go: open gates, a window of 2/5/16 requests in flight over 2 000–20 000 requests, 1–3 processes at once, a chain / fork / diamond; the request-tree reference and a no-progress watchdog, no model lines) and by one directed case synchronised through two outbound hooks",
 		"the Flow model is per process: a multi-process case is compared process by process against a fresh model state – nothing the real nodes keep between processes may show",
 		"actions return fresh packets, nothing (also one-to-one: (nil, nil)), or the in packet itself – one-to-one; one-to-many on one or several outputs (`s k`), also next to new packets (`m … = …`) and with unconnected outputs among them. A port that gets the in packet NEXT TO NEW packets is always a connected one (without the fix node.derive the refused write's echo takes a new packet's slot and the process dies when that packet is answered: no replay could be written); graphs whose fork outputs all lead to one in-port still compare joins as multisets (`orderfree`)",
 		"the source may write the packet object of its previous request once more (`resend`): Writer.Write hands every reader a packet of its own, so this is an independent request",
@@ -2143,7 +2145,11 @@ func Run(c *lib.Ctx) {
 	r := lib.NewRNG(c.Seed).Fork()
 	sc := &lib.Script{}
 	var fails []lib.OracleFail
+	onlyFree := os.Getenv("VERIF_C02_ONLY") == "free"
 	for _, f := range c.CorpusFiles() {
+		if onlyFree {
+			break
+		}
 		lines := lib.ReadLines(f)
 		c.Hit("corpus-case")
 		if isMultiCorpus(lines) {
@@ -2162,7 +2168,7 @@ func Run(c *lib.Ctx) {
 	maxNodes := 6
 	start := time.Now()
 	budget := time.Duration(c.Scale(25, 420)) * time.Second
-	for i := 0; i < n && time.Since(start) < budget; i++ {
+	for i := 0; i < n && time.Since(start) < budget && !onlyFree; i++ {
 		if i%10 == 9 {
 			// the size family: a long busy period in one process
 			cr := runSized(c, r.Fork(), sc)
@@ -2193,6 +2199,10 @@ func Run(c *lib.Ctx) {
 		if len(fails) > 20 {
 			break
 		}
+	}
+	// the free-running part: open gates, real parallelism, oracle only (free.go)
+	if len(fails) <= 20 {
+		fails = append(fails, runFree(c, r.Fork())...)
 	}
 	var ms []lib.Mismatch
 	if c.Proof.DriverBuilt {
